@@ -42,7 +42,7 @@ ASSUMPTIONS = [
     'Exact back-off values are not asserted, only: non-decreasing, each <= 2.0 s, clock advances only through sleep.',
     'A transport exception is not a "transient server error": it must propagate without a resend.',
 ]
-EXPECTED_PROBES = ['many_transients_on_one_client', 'sixth_attempt_transient', 'retried_then_ok', 'retried_then_error', 'exception_midway', 'four_xx_temporary_not_retried']
+EXPECTED_PROBES = ['debug_logging_on', 'many_transients_on_one_client', 'sixth_attempt_transient', 'retried_then_ok', 'retried_then_error', 'exception_midway', 'four_xx_temporary_not_retried']
 
 TRANSIENT = ('t_json', 'preval_text', 't_json2', 'preval_json')
 CLASSES = [
@@ -58,6 +58,7 @@ CLASSES = [
     'mix_proto_temp',
     'text5xx',
     'badjson5xx',
+    'empty_list5xx',
     's401',
     's404',
     'c4xx_json',
@@ -125,6 +126,9 @@ def gen_response(rng, cls, tok):
         return {'cls': cls, 'status': st5, 'ctype': 'application/json', 'body': json.dumps(errs)}
     if cls == 'text5xx':
         return {'cls': cls, 'status': st5, 'ctype': 'text/plain', 'body': f'Internal server error {tok}'}
+    if cls == 'empty_list5xx':
+        # legal JSON, no error in it: nothing says "temporary", so it is not a transient failure
+        return {'cls': cls, 'status': st5, 'ctype': 'application/json', 'body': '[]'}
     if cls == 'badjson5xx':
         return {'cls': cls, 'status': st5, 'ctype': 'application/json', 'body': f'<<not json {tok}'}
     if cls == 's401':
@@ -146,7 +150,7 @@ def gen(seed, tier):
     enabled = [c for c in CLASSES if rng.random() < 0.7] or ['ok']
     if not any(c in TRANSIENT for c in enabled) and rng.random() < 0.8:
         enabled.append(rng.choice(TRANSIENT))
-    nreq = rng.choice([1, 2, 3, 5, 8])
+    nreq = rng.choice([1, 2, 3, 5, 8]) if (tier != 'thorough' and rng.random() < 0.95) else rng.choice([8, 20, 40])
     steps = []
     tokn = 0
     for r in range(nreq):
@@ -181,7 +185,7 @@ def gen(seed, tier):
         if rng.random() < 0.3 and via.startswith('node.') and via != 'node.request':
             step['timeout'] = rng.choice([1, 30, 120])
         steps.append(step)
-    return {'prop': ID, 'steps': steps}
+    return {'prop': ID, 'steps': steps, 'debug_logging': rng.random() < 0.15}
 
 
 def is_transient(resp):
@@ -209,8 +213,17 @@ def execute(scn, want_log=False):
 
     import requests
 
+    import logging
+
     sim = core.Sim()
     cursor = {'script': None, 'pos': 0}
+    plog = logging.getLogger('pytezos')
+    saved_level = plog.level
+    if scn.get('debug_logging'):
+        # the documented `loglevel = 'DEBUG'` setting: records go to a null handler, behaviour must not change
+        if not any(isinstance(h, logging.NullHandler) for h in plog.handlers):
+            plog.addHandler(logging.NullHandler())
+        plog.setLevel(logging.DEBUG)
 
     def handler(req):
         script = cursor['script']
@@ -304,6 +317,8 @@ def execute(scn, want_log=False):
                 exc = e
             except requests.exceptions.RequestException as e:
                 exc = e
+            except (TypeError, ValueError, AttributeError, KeyError, AssertionError) as e:
+                exc = e  # not an error of any response: judged below as a wrong outcome
             sim.ev('client_done', step=si, outcome=('ok' if exc is None else type(exc).__name__))
 
             # ---- judge ----
@@ -369,8 +384,8 @@ def execute(scn, want_log=False):
             try:
                 body = json.loads(decider['body'])
                 tok = body['tok'] if isinstance(body, dict) else (body[-1]['tok'] if body else None)
-            except (ValueError, KeyError, TypeError):
-                tok = decider['body'].split()[-1] if decider['body'] else None
+            except (ValueError, KeyError, TypeError, IndexError):
+                tok = decider['body'].split()[-1] if decider['body'] and decider['cls'] not in ('empty_list5xx', 'odd_items5xx') else None
             if decider['status'] == 200:
                 if exc is not None:
                     violate('outcome', 'raised-on-success', step=si, got=repr(exc), attempts=len(reqs))
@@ -390,6 +405,9 @@ def execute(scn, want_log=False):
             if tok and tok not in text:
                 violate('outcome', f'wrong-error-raised:{decider["cls"]}', step=si, got=text[:300], expected_tok=tok)
 
+    plog.setLevel(saved_level)
+    if scn.get('debug_logging'):
+        bump('debug_logging_on')
     if sum(1 for e in sim.log if e['k'] == 'req' and e.get('status', 0) >= 500) >= 8:
         bump('many_transients_on_one_client')
     out = {
@@ -410,6 +428,10 @@ def execute(scn, want_log=False):
 
 
 def simplify(scn):
+    if scn.get('debug_logging'):
+        c = json.loads(json.dumps(scn))
+        c['debug_logging'] = False
+        yield c
     # shorten scripts from the tail; replace classes by simpler ones; drop params/json/timeout; plain via
     for i, st in enumerate(scn['steps']):
         if len(st['script']) > 1:
